@@ -16,6 +16,7 @@ specification (any exclusion set, any hooks), every shared-memory heap.  An obje
 where a theorem needs it, `(keys o).Nodup` states that a dict has unique keys.
 -/
 import GemseoVerif.Lemmas.C20
+import GemseoVerif.Lemmas.C20Life
 import GemseoVerif.Gen.C20Table
 
 namespace GV.C20
@@ -407,6 +408,135 @@ example :
     let c : HCache := HCache.attach d ⟨0, "f", "n", "nm"⟩
     (HCache.setstate (c.write d ⟨5, 6⟩).1 c.getstate).read (c.write d ⟨5, 6⟩).1 = [⟨1, 2⟩, ⟨5, 6⟩] ∧
     (HCache.setstate (c.write d ⟨5, 6⟩).1 c.getstate).index = [1, 5] := by
+  decide +kernel
+
+/-! ### 5. A `JSONGrammar` pickled at any moment of its life
+
+`JG` (Model/C20.lean) is the grammar with what it builds lazily: the schema dict `__schema` (with the
+`required` entry it was last given), the compiled validator, the schema builder's own `required`.  A *life*
+is any list of operations from a fresh grammar: element edits (which reset the lazily built objects),
+edits of the required names and of the defaults (which do not), reads of `schema`, validations (which
+build them), round trips.  The theorems below are quantified over every life. -/
+
+/-- **grammar_life_invariant.**  At every moment of every life the lazily built objects, when present,
+    were built from the current elements, the builder's own `required` is empty and the defaults are
+    bound to the grammar. -/
+theorem grammar_life_invariant (ops : List GOp) : JInv (JG.fresh.run ops).1 :=
+  JInv.run JInv.fresh ops
+
+/-- **grammar_life_state_is_current.**  The pickled state is a function of the *current* definition:
+    the schema dict it carries has the current elements and its `required` entry is the current required
+    names — whenever the schema dict was first built, whatever was required then. -/
+theorem grammar_life_state_is_current (ops : List GOp) :
+    ((JG.fresh.run ops).1.getstate).1 =
+      ⟨⟨(JG.fresh.run ops).1.g.props, (JG.fresh.run ops).1.g.required⟩, (JG.fresh.run ops).1.g.required,
+       (JG.fresh.run ops).1.g.defaults, (JG.fresh.run ops).1.g.toNs⟩ :=
+  getstate_current (grammar_life_invariant ops)
+
+/-- **grammar_life_roundtrip.**  Pickled at any moment of its life, a grammar is restored (no `KeyError`)
+    with exactly its current elements, required names, defaults and namespaces; the restored grammar has
+    an empty builder-`required`, no validator, and a schema dict for the current definition.  Pickling
+    leaves the definition of the original alone. -/
+theorem grammar_life_roundtrip (ops : List GOp) :
+    ∃ r, JG.setstate ((JG.fresh.run ops).1.getstate).1 = some r ∧ r.g = (JG.fresh.run ops).1.g ∧
+      r.breq = [] ∧ r.valid = none ∧
+      r.cache = some ⟨(JG.fresh.run ops).1.g.props, (JG.fresh.run ops).1.g.required⟩ ∧
+      ((JG.fresh.run ops).1.getstate).2.g = (JG.fresh.run ops).1.g :=
+  ⟨_, setstate_current (grammar_life_invariant ops), rfl, rfl, rfl, rfl, rfl⟩
+
+/-- **grammar_restore_ignores_schema_required.**  Whatever `required` entry a pickled schema dict
+    carries, the restored required names are the pickled `_required_names` and nothing else, and the
+    builder keeps no required name of its own. -/
+theorem grammar_restore_ignores_schema_required (st : JState) (r : JG) (h : JG.setstate st = some r) :
+    r.g.required = st.required ∧ r.breq = [] ∧ r.g.props = st.schema.props ∧ r.g.toNs = st.toNs := by
+  simp only [JG.setstate, Option.map_eq_some_iff] at h
+  obtain ⟨d, _, hr⟩ := h
+  subst hr
+  exact ⟨rfl, rfl, rfl, rfl⟩
+
+/-- **grammar_life_copy_indistinguishable.**  After any life `ops`, the restored grammar and the
+    original (as pickling left it) answer every further life `post` identically — same `KeyError`s, same
+    validation verdicts, same schema dicts — and have the same definition afterwards. -/
+theorem grammar_life_copy_indistinguishable (ops post : List GOp) (r : JG)
+    (h : JG.setstate ((JG.fresh.run ops).1.getstate).1 = some r) :
+    (r.run post).2 = (((JG.fresh.run ops).1.getstate).2.run post).2 ∧
+    (r.run post).1.g = (((JG.fresh.run ops).1.getstate).2.run post).1.g := by
+  have hi := grammar_life_invariant ops
+  rw [setstate_current hi] at h
+  cases h
+  exact run_congr (JInv.restored hi) (JInv.schemaProp hi) rfl post
+
+/-- The verdict of a validation at any moment of a life is the one of the current definition (required
+    names present, every present name of the right type) — not the one of the definition the validator
+    was compiled from. -/
+theorem grammar_life_validation_current (ops : List GOp) (data : List (String × Nat)) :
+    ((JG.fresh.run ops).1.validate data).1 =
+      (!((JG.fresh.run ops).1.g.required.any (fun r => !(keys data).contains r)) &&
+        (JG.fresh.run ops).1.g.props.all (dataOk data)) :=
+  validate_verdict (grammar_life_invariant ops) data
+
+/- Non-vacuity: a grammar used (the schema dict is built with `x`, `a` required), then `a` made
+   optional: the cached dict still says `a` is required, the pickled state does not, the restored grammar
+   accepts `{x}` like the original. -/
+example :
+    let j := (JG.fresh.run [.names ["x", "a"], .validate [("x", 0), ("a", 0)], .reqDiscard "a"]).1
+    j.cache = some ⟨[("x", 0), ("a", 0)], ["x", "a"]⟩ ∧ j.g.required = ["x"] ∧ j.valid.isSome ∧
+    j.getstate.1.schema.req = ["x"] ∧
+    (JG.setstate j.getstate.1).map (fun r => (r.g.required, (r.validate [("x", 0)]).1)) = some (["x"], true) ∧
+    (j.validate [("x", 0)]).1 = true ∧ (j.validate [("a", 0)]).1 = false := by
+  decide +kernel
+
+/- Non-vacuity of the other operations: rename with a default, namespace, restriction, round trip in the
+   middle of the life. -/
+example :
+    (JG.fresh.run [.names ["a", "b", "c"], .setDefault "b" 3, .schema, .rename "b" "z", .addNs "a" "n",
+                   .pickle, .restrict ["z", "n:a"], .reqDiscard "z", .types "w" 3, .del "n:a"]).1.g
+      = ⟨[("z", 0), ("w", 3)], ["w"], [("z", 3)], [("a", "n:a")]⟩ := by
+  decide +kernel
+
+/-! ### 6. An `HDF5Cache` whose settings were changed after its construction -/
+
+/-- **hdf5_life_restored_has_current_settings.**  Whatever settings were changed and entries written
+    since the cache was created with the arguments `st`, the restored cache has the *current* tolerance
+    and name, and the file and node of the construction (no operation changes them). -/
+theorem hdf5_life_restored_has_current_settings (d : Disk) (st : HState) (ops : List HOp) :
+    (HCache.setstate (HLife.run (d, HLife.create d st) ops).1.1
+        (HLife.run (d, HLife.create d st) ops).1.2.cache.getstate).tol
+      = (HLife.run (d, HLife.create d st) ops).1.2.cache.tol ∧
+    (HCache.setstate (HLife.run (d, HLife.create d st) ops).1.1
+        (HLife.run (d, HLife.create d st) ops).1.2.cache.getstate).name
+      = (HLife.run (d, HLife.create d st) ops).1.2.cache.name ∧
+    (HCache.setstate (HLife.run (d, HLife.create d st) ops).1.1
+        (HLife.run (d, HLife.create d st) ops).1.2.cache.getstate).path = st.path ∧
+    (HCache.setstate (HLife.run (d, HLife.create d st) ops).1.1
+        (HLife.run (d, HLife.create d st) ops).1.2.cache.getstate).node = st.node ∧
+    (HLife.run (d, HLife.create d st) ops).1.2.init = st := by
+  have hi := HInv.run (HInv.create d st) ops
+  exact ⟨rfl, rfl, hi.path, hi.node, hi.init⟩
+
+/-- **hdf5_life_lookup_same.**  After any life of the cache (the single user of its node), the restored
+    cache answers every look-up — exact or within the current tolerance — like the original. -/
+theorem hdf5_life_lookup_same (d : Disk) (st : HState) (ops : List HOp) (x : Rat) :
+    (HCache.setstate (HLife.run (d, HLife.create d st) ops).1.1
+        (HLife.run (d, HLife.create d st) ops).1.2.cache.getstate).lookup
+        (HLife.run (d, HLife.create d st) ops).1.1 x
+      = (HLife.run (d, HLife.create d st) ops).1.2.cache.lookup (HLife.run (d, HLife.create d st) ops).1.1 x := by
+  have hi := HInv.run (HInv.create d st) ops
+  have hc := hi.cons
+  simp only [HCache.Consistent, HCache.read] at hc
+  exact lookup_congr _ _ _ x rfl (by simp only [HCache.setstate, HCache.attach, HCache.getstate, hc]) rfl rfl
+
+/- Non-vacuity: created with a zero tolerance, then `tolerance = 1/8`; the restored cache finds the entry
+   of the neighbouring input 1 at 33/32 like the original, a cache re-created from the construction
+   arguments would not. -/
+example :
+    let r := HLife.run ([], HLife.create [] ⟨0, "f", "n", "nm"⟩) [.write ⟨1, 2⟩, .setTol (1/8), .setName "zz", .write ⟨3, 10⟩]
+    r.1.2.init.tol = 0 ∧ r.1.2.cache.tol = 1/8 ∧
+    (HCache.setstate r.1.1 r.1.2.cache.getstate).lookup r.1.1 (33/32) = some 2 ∧
+    (HCache.setstate r.1.1 r.1.2.cache.getstate).name = "zz" ∧
+    r.1.2.cache.lookup r.1.1 (33/32) = some 2 ∧
+    (HCache.attach r.1.1 r.1.2.init).lookup r.1.1 (33/32) = none ∧
+    (HCache.setstate r.1.1 r.1.2.cache.getstate).lookup r.1.1 2 = none := by
   decide +kernel
 
 end GV.C20
